@@ -85,9 +85,12 @@ impl PartialPermission {
 impl Parseable for Permission {
     fn parse(input: &mut &str) -> PResult<Permission> {
         alt((
+            // A value with bits outside of the permission bits, or too long to be a mode at
+            // all, is not a permission
             take_while(3.., |c| "01234567".contains(c))
-                .map(|oct| u32::from_str_radix(oct, 8).unwrap())
-                .map(|bits| Permission(Mode::from_bits(bits).unwrap())),
+                .try_map(|oct| u32::from_str_radix(oct, 8))
+                .verify_map(Mode::from_bits)
+                .map(Permission),
             separated(1.., PartialPermission::parse, ",")
                 .map(|v: Vec<PartialPermission>| {
                     v.iter()
